@@ -393,7 +393,7 @@ class AddrWireWorld(World):
     def make_config(self, rng, leg, run_index):
         if leg == 'roundtrip':
             acc = [bytes(32), b'\xff' * 32][run_index % 7] if run_index % 7 < 2 else bytes(rng.getrandbits(8) for _ in range(32))
-            return {'wc': run_index - 128, 'acc': acc.hex(), 'leg': leg}
+            return {'wc': run_index - 128, 'acc': acc.hex(), 'leg': leg, 'origin': self.ORIGINS[(run_index // 3) % len(self.ORIGINS)]}
         if leg == 'checksum':
             # the account id's last two bytes are solved so that the friendly form of ONE variant carries a chosen checksum
             return {'wc': rng.choice([-1, 0, 0, -128, 127, rng.randint(-128, 127)]), 'acc': bytes(rng.getrandbits(8) for _ in range(32)).hex(), 'leg': leg, 'variant': rng.randrange(8),
@@ -435,7 +435,7 @@ class AddrWireWorld(World):
     def run_crowd(self, ctx, ops=None):
         if ops is None:
             fam = self._family(ctx.rng, ctx.cfg)
-            ops = [{'op': 'member', 'wc': w, 'acc': h.to_bytes(32, 'big').hex()} for w, h in fam]
+            ops = [{'op': 'member', 'wc': w, 'acc': h.to_bytes(32, 'big').hex(), 'origin': ctx.rng.choice(self.ORIGINS)} for w, h in fam]
             vs = ctx.rng.sample(range(8), 3) + ['raw']
             renders = [{'op': 'render_member', 'i': i, 'variant': v} for v in vs for i in range(len(fam))]
             if ctx.rng.random() < 0.5:
@@ -448,7 +448,7 @@ class AddrWireWorld(World):
             for o in ops:
                 if o['op'] == 'member':
                     ctx.op(o)
-                    members.append({'op': 'address', 'wc': o['wc'], 'acc': o['acc']})
+                    members.append({'op': 'address', 'wc': o['wc'], 'acc': o['acc'], 'origin': o.get('origin', 'tuple')})
                 elif o['op'] == 'render_member' and members:
                     ctx.op(o)
                     ctx.fault('related-address-handled-earlier-in-process') if len(ctx.ops) > len(members) + 1 else None
@@ -487,9 +487,9 @@ class AddrWireWorld(World):
                         if ch != text[pos]:
                             self._subst(ctx, aop, rop, text, pos, ch, times=1)
             return
-        aop = {'op': 'address', 'wc': cfg['wc'], 'acc': cfg['acc']}
+        aop = {'op': 'address', 'wc': cfg['wc'], 'acc': cfg['acc'], 'origin': cfg.get('origin', 'tuple')}
         ctx.op(aop)
-        ctx.tag(cfg['wc'], cfg.get('variants'), cfg['acc'][:4])
+        ctx.tag(cfg['wc'], cfg.get('variants'), cfg['acc'][:4], cfg.get('origin'))
         if cfg['leg'] == 'roundtrip':
             ctx.probe('workchain-%s' % ('negative' if cfg['wc'] < 0 else 'nonnegative'))
             self._check(ctx, aop, {'op': 'render', 'variant': 'raw'})
@@ -540,8 +540,33 @@ class AddrWireWorld(World):
                 ctx.op(o)
                 self._subst(ctx, a, rop, text, o['pos'], o['char'], record=False, times=o.get('times', 1))
 
+    ORIGINS = ['tuple', 'raw', 'copy', 'cell', 'anycast-set', 'anycast-cell']
+
     def _mk(self, aop):
-        return Address((aop['wc'], bytes.fromhex(aop['acc'])))
+        """The address object under test, obtained by the route aop['origin'] names ('equal addresses hash equally' is
+        about objects, however they came to exist).  A route the library refuses falls back to the tuple form."""
+        wc, acc = aop['wc'], bytes.fromhex(aop['acc'])
+        origin = aop.get('origin', 'tuple')
+        if origin == 'tuple':
+            return Address((wc, acc))
+
+        def go():
+            if origin == 'raw':
+                return Address('%d:%s' % (wc, acc.hex()))
+            if origin == 'copy':
+                return Address(Address((wc, acc)))
+            a = Address((wc, acc))
+            if origin.startswith('anycast'):
+                depth = 1 + acc[0] % 30
+                a.set_anycast(depth, int.from_bytes(acc[1:5], 'big') >> (32 - depth))
+            if origin.endswith('cell'):
+                from pytoniq_core.boc.builder import Builder
+                a = Builder().store_address(a).end_cell().begin_parse().load_address()
+            return a
+        ok, a = call(go)
+        if not ok or not isinstance(a, Address) or a.wc != wc or a.hash_part != acc:
+            return Address((wc, acc))
+        return a
 
     def _check(self, ctx, aop, rop, record=True):
         a = self._mk(aop)
@@ -567,7 +592,18 @@ class AddrWireWorld(World):
             self._fail(ctx, [aop, rop], 'roundtrip', 'Address(str)', klass, 'Address(%r) raised %r' % (text, back))
             return None
         problems = []
-        if not (back == a) or back.wc != wc or back.hash_part != acc:
+        anycast = getattr(a, 'anycast', None) is not None
+        if anycast:
+            # the text forms cannot carry anycast info and the statement quantifies over (workchain, account id): whether such an
+            # object equals its parsed text is the library's choice - but IF it says equal, the two must hash equally
+            ctx.probe('address-object-carrying-anycast-info')
+            oke, eq = call(lambda: back == a)
+            if not oke or not eq:
+                if back.wc != wc or back.hash_part != acc:
+                    self._fail(ctx, [aop, rop], 'roundtrip', 'Address(str)', klass, 'parsed address differs (wc %r)' % (back.wc,))
+                    return None
+                return text
+        if (not anycast and not (back == a)) or back.wc != wc or back.hash_part != acc:
             problems.append('parsed address differs (wc %r)' % (back.wc,))
         if v != 'raw':
             b, t, u = VARIANTS[v]
